@@ -12,7 +12,33 @@ open Rpylib Rpylib.Sde
   df <x0> <tenors> <ts>       -> list of model.df(t) (`err` where the call raises IndexError)
   dfold <x0> <tenors> <ts>    -> the curve before the fix
 -/
-def pathRows (n m : Nat) (f : Nat → Vec) : List (List Rat) := (List.range (n + 1)).map (fun i => toList m (f i))
+/- Vectors of the model are closures; iterating `eulerStep` on closures would re-evaluate the whole history at every
+   component access.  The driver therefore materialises the state after every step (`vecOf (toList m ·)`) and runs M's
+   own `eulerStep`, `driftInc`, `diffInc`, `jumpInc`, `eulerStepPair` one step at a time — `euler (i+1) = eulerStep
+   (euler i) i` and `driftPath (i+1) = driftPath i + driftInc (euler i) i` hold by definition. -/
+def mat (m : Nat) (v : Vec) : Vec := vecOf (toList m v)
+def addL (a b : List Rat) : List Rat := List.zipWith (· + ·) a b
+
+/-- rows X_0..X_n and the cumulative drift / diffusion / jump rows -/
+def runEuler (S : Sde) (P : DriverPath) (m : Nat) : Nat → Nat → Vec → List Rat → List Rat → List Rat →
+    List (List Rat) × List (List Rat) × List (List Rat) × List (List Rat)
+  | 0, _, z, dr, di, ju => ([toList m z], [dr], [di], [ju])
+  | fuel + 1, i, z, dr, di, ju =>
+    let z' := mat m (eulerStep S P z i)
+    let dr' := addL dr (toList m (driftInc S P z i))
+    let di' := addL di (toList m (diffInc S P z i))
+    let ju' := addL ju (toList m (jumpInc S P z i))
+    let (a, b, c, d) := runEuler S P m fuel (i + 1) z' dr' di' ju'
+    (toList m z :: a, dr :: b, di :: c, ju :: d)
+
+def runPair (S : SdePair) (P : DriverPair) (m : Nat) : Nat → Nat → (Nat → Vec) → List (List Rat) × List (List Rat)
+  | 0, _, z => ([toList m (z 0)], [toList m (z 1)])
+  | fuel + 1, i, z =>
+    let w := eulerStepPair S P z i
+    let w0 := mat m (w 0)
+    let w1 := mat m (w 1)
+    let (a, b) := runPair S P m fuel (i + 1) (fun c => if c = 0 then w0 else w1)
+    (toList m (z 0) :: a, toList m (z 1) :: b)
 
 def step (tk : List String) : String :=
   match tk with
@@ -25,10 +51,10 @@ def step (tk : List String) : String :=
       let P : DriverPath := ⟨vecOf ts, fun i => vecOf (W.getD i []), fun i => vecOf (L.getD i [])⟩
       let n := ts.length - 1
       let x := vecOf x0
-      showListList showRat (pathRows n m (euler S P x)) ++ " " ++
-        showListList showRat (pathRows n m (driftPath S P x)) ++ " " ++
-        showListList showRat (pathRows n m (diffPath S P x)) ++ " " ++
-        showListList showRat (pathRows n m (jumpPath S P x))
+      let z := List.replicate m (0 : Rat)
+      let (a, b, c, d) := runEuler S P m n 0 (mat m x) z z z
+      showListList showRat a ++ " " ++ showListList showRat b ++ " " ++ showListList showRat c ++ " " ++
+        showListList showRat d
     | _, _, _, _, _, _, _, _, _, _, _, _ => "bad-op"
   | ["pair", d, m, C, D, e, be, ga, mu0, mu1, x0, ts, W0, L0, W1, L1] =>
     match parseNat? d, parseNat? m, parseListListWith? parseRat? C, parseListListWith? parseRat? D, parseRat? e,
@@ -43,8 +69,9 @@ def step (tk : List String) : String :=
           fun c i => if c = 0 then vecOf (L0.getD i []) else vecOf (L1.getD i [])⟩
         let n := ts.length - 1
         let x := vecOf x0
-        showListList showRat (pathRows n m (fun i => eulerPair S P x i 0)) ++ " " ++
-          showListList showRat (pathRows n m (fun i => eulerPair S P x i 1))
+        let x := mat m x
+        let (a, b) := runPair S P m n 0 (fun _ => x)
+        showListList showRat a ++ " " ++ showListList showRat b
       | _, _, _, _ => "bad-op"
     | _, _, _, _, _, _, _, _, _, _, _ => "bad-op"
   | ["df", x0, tenors, ts] =>
